@@ -688,7 +688,9 @@ class Interp:
         try:
             return getattr(o, n.attr)
         except AttributeError:
-            if isinstance(o, (SV, SB)) or hasattr(o, "__generic__") or type(o).__module__.startswith("vfw"):
+            # only None is certain to be the program's own object: a native list / tuple / stub may stand for a pandas or
+            # numpy object whose attribute exists (a missing model attribute must not be reported as the program's AttributeError)
+            if o is not None:
                 raise Unsupported(f"attribute .{n.attr} of {type(o).__name__} has no model (line {n.lineno})")
             raise ModelRaise("AttributeError", f"{type(o).__name__}.{n.attr}", n.lineno)
 
